@@ -414,6 +414,35 @@ func checkGlobalsIn(c *Ctx, ri *reachInfo, sum *mutSummary, rule string, ownPkg 
 								"two goroutines (or two successive runs) calling the entry point that reaches "+shortFn(f))
 						}
 					default:
+						// the variable itself (its address) is the receiver or an argument of a call: a stateful method of a value kept
+						// at package level (a pool, a cache, a buffer) carries state from one run into the next
+						if call, isCall := in.(ssa.CallInstruction); isCall {
+							com := call.Common()
+							if callee := com.StaticCallee(); callee != nil {
+								for ai, a := range com.Args {
+									if a != ssa.Value(g) {
+										continue
+									}
+									q := qualifiedFuncName(callee)
+									if _, pure := pureMethods[q]; pure {
+										continue
+									}
+									why := ""
+									if isStdlib(fnPkgPath(callee)) {
+										if ai == 0 && callee.Signature.Recv() != nil {
+											why = "has the pointer-receiver method " + q + " called on it (not in the reviewed concurrency-safe, stateless table): what one run leaves in it is what the next run finds"
+										}
+									} else if sum.mutatesParam(callee, ai, 0) {
+										why = "is passed by address to " + q + ", which writes through it"
+									}
+									if why != "" {
+										st.bad++
+										c.Fail(rule, "use of "+key, in.Pos(), "package-level "+name+" "+why+": shared mutable state reachable from the entry points (concurrent or successive runs interfere)",
+											"two successive runs (or two goroutines) calling the entry point that reaches "+shortFn(f))
+									}
+								}
+							}
+						}
 						// address of the global taken for something else than load/store
 						if _, isField := in.(*ssa.FieldAddr); isField {
 							for _, rr := range *in.(ssa.Value).Referrers() {
